@@ -514,7 +514,7 @@ func (c *c11ctx) ruleR5() {
 			seen[f] = true
 			path = append(path, f)
 			Instrs(f, func(in ssa.Instruction) {
-				if _, ok := in.(*ssa.Panic); ok {
+				if _, ok := in.(*ssa.Panic); ok && !isSelectFallthroughPanic(in) {
 					sites = append(sites, fmt.Sprintf("panic at %s via %s", p.InstrPos(in), pathString(path)))
 				} else if noReturnCall(in) {
 					sites = append(sites, fmt.Sprintf("%s at %s via %s", CalleeName(CallOf(in)), p.InstrPos(in), pathString(path)))
